@@ -66,16 +66,17 @@ def _zero(t):
 
 def uf_shape_value(st, base, args, shape):
     """A value of `shape` determined by the z3 terms `args` (uninterpreted functions named after `base`)."""
-    dom = [t.sort() for t in args]
-    base = f"{base}/{'.'.join(str(d)[0] for d in dom)}"  # one function per signature
+    base = f"{base}/{'.'.join(str(t.sort())[0] for t in args)}"  # one function per signature
 
-    def mk(shp, path):
+    def mk(shp, path, args):
+        dom = [t.sort() for t in args]
         if isinstance(shp, S._Int):
             e = z3.Function(f"{base}{path}", *dom, z3.IntSort())(*args)
+            s_ = V.cur() if V._current else st
             if shp.lo is not None:
-                st.assume(e >= shp.lo)
+                s_.assume(e >= shp.lo)
             if shp.hi is not None:
-                st.assume(e <= shp.hi)
+                s_.assume(e <= shp.hi)
             return mk_int(e)
         if isinstance(shp, S._Bool):
             return mk_bool(z3.Function(f"{base}{path}", *dom, z3.BoolSort())(*args))
@@ -83,25 +84,34 @@ def uf_shape_value(st, base, args, shape):
             if len(shp.domain) == 1:
                 return shp.domain[0]
             e = z3.Function(f"{base}{path}", *dom, z3.IntSort())(*args)
-            st.assume(z3.Or(*[e == atom_code(d) for d in shp.domain]))
+            (V.cur() if V._current else st).assume(z3.Or(*[e == atom_code(d) for d in shp.domain]))
             return SAtom(e, shp.domain)
         if isinstance(shp, S.Opt):
             isn = z3.Function(f"{base}{path}?", *dom, z3.BoolSort())(*args)
-            return SOpt(isn, mk(shp.inner, path + "v"))
+            return SOpt(isn, mk(shp.inner, path + "v", args))
         if isinstance(shp, S.Tup):
-            return tuple(mk(s, f"{path}.{i}") for i, s in enumerate(shp.items))
+            return tuple(mk(s, f"{path}.{i}", args) for i, s in enumerate(shp.items))
         if isinstance(shp, S.Opaque):
             e = z3.Function(f"{base}{path}", *dom, S.opaque_sort(shp.kind))(*args)
             return SOpaque(shp.kind, e, dict(shp.meta))
         if isinstance(shp, S.Const):
             return shp.value
         if isinstance(shp, S.Obj):
-            o = SObj(shp.cls, {k: mk(s, f"{path}.{k}") for k, s in shp.fields.items()}, base_list=shp.base_list)
+            o = SObj(shp.cls, {k: mk(s, f"{path}.{k}", args) for k, s in shp.fields.items()}, base_list=shp.base_list)
             o.shape = shp
             return o
+        if isinstance(shp, S.ListOf):
+            from .seqs import LRef, SSeq
+
+            n = z3.Function(f"{base}{path}#len", *dom, z3.IntSort())(*args)
+            st.assume(n >= shp.min_len)
+            if shp.max_len is not None:
+                st.assume(n <= shp.max_len)
+            seq = SSeq(mk_int(n), lambda i, shp=shp, path=path, args=args: mk(shp.elem, path + "[]", list(args) + [V._z(i)]), shp.elem, None, f"{base}{path}")
+            return seq if shp.tuple_ else LRef(seq)
         raise Unsupported(f"uninterpreted result of shape {shp!r}")
 
-    return mk(shape, "")
+    return mk(shape, "", list(args))
 
 
 class PMethod:
@@ -175,6 +185,13 @@ class Protocol:
 
     def call(self, ip, st, recv, name, args, kwargs):
         m = self.methods[name]
+        if st.capture is not None and not m.mutates:
+            # inside a quantifier body (a lazily evaluated comprehension element): a pure query, not logged
+            vals = dict(m.defaults)
+            for p, v in zip(m.params, args):
+                vals[p] = v
+            vals.update(kwargs)
+            return self.call_quiet(st, recv, name, vals)
         vals = dict(m.defaults)
         for p, v in zip(m.params, args):
             vals[p] = v
